@@ -78,8 +78,8 @@ def run_impl(case, d):
         if cp.window_has_events(res["rows"], ann2, None):
             try:
                 out2 = ta.critical_path_analysis(rank=res["rank"], annotation=ann2, instance_id=None)
-            except AssertionError:
-                out2 = None
+            except (AssertionError, ValueError):
+                out2 = None          # the other window has no successful analysis (e.g. a trace that is not causally consistent): nothing to save
             if out2 is not None and out2[1]:
                 g2 = out2[0]
                 before2 = observe(g2)
